@@ -67,6 +67,7 @@ def discover(crate):
             # OPTIONAL: a counterexample finder on code CBMC may not finish on; a timeout is
             # reported as "not finished", not as undecided
             "optional": "OPTIONAL" in attrs,
+            "pinned_solver": (re.search(r"kani::solver\((\w+)\)", attrs) or [None, None])[1],
             "body": body,
             "stubs": re.findall(r"kani::stub(?:_verified)?\(([^)]*)\)", attrs),
         }
